@@ -280,6 +280,17 @@ def run(pid, tier, seed, replay=None):
                 continue
             for k in range(per_prog):
                 rnd_items.append({"id": len(rnd_items) + 1, "pi": pidx[p["name"]], "inputs": random_inputs(p, rnd), "prog": p})
+            if plan.get("shuffle") and "ds" in p["tags"] and any(r["name"] == "e" and r["input"] for r in p["rels"]):
+                # vector-order family (C06): the rows of one input vector in many orders (a provider sees them one by one)
+                import itertools
+                pair_sets = [[(0, 1), (2, 3), (4, 5), (1, 2), (3, 4), (5, 0)], [(1, 0), (2, 1), (3, 2), (4, 3), (5, 4), (0, 3)],
+                             [(0, 1), (1, 2), (2, 0), (3, 4), (4, 3), (2, 3)]]
+                for ps in pair_sets:
+                    perms = list(itertools.permutations(range(len(ps))))
+                    for pm in rnd.sample(perms, 60 if tier == "quick" else 720):
+                        inputs = {r["name"]: [] for r in p["rels"] if r["input"]}
+                        inputs["e"] = [list(ps[j]) for j in pm]
+                        rnd_items.append({"id": len(rnd_items) + 1, "pi": pidx[p["name"]], "inputs": inputs, "prog": p, "keep_order": True})
             if any(r["name"] == "sched" for r in p["rels"]) and "ds" in p["tags"]:
                 for k in range(int(per_prog * 1.5)):
                     rnd_items.append({"id": len(rnd_items) + 1, "pi": pidx[p["name"]], "inputs": structured_schedule(p, rnd), "prog": p})
@@ -290,7 +301,7 @@ def run(pid, tier, seed, replay=None):
             p = it["prog"]
             for v in [v for v in plan["variants"] if (p["name"], v) in mods]:
                 cid += 1
-                ops = semlib.input_ops(p, it["inputs"], rnd) + [{"op": "run"}]
+                ops = semlib.input_ops(p, it["inputs"], None if it.get("keep_order") else rnd) + [{"op": "run"}]
                 case = semlib.make_case(cid, p, pidx[p["name"]], v, ops)
                 cases.append(case)
                 meta[cid] = dict(case=case, inputs=it["inputs"], lm=lms[it["id"]], prog=p)
